@@ -25,6 +25,18 @@ CHECKS = {
    text="Final-state check of generated build-file restraints (geometric in/out, growth direction, distance restraints, cycles, persistence-length sampling) with independent predicates, under seeded RNG (incl. the OS-entropy re-seed) and forced step failures so that restraint bookkeeping has to survive rewinds and retries.",
    note="Trusted as for C03; restraint geometries are generated to be satisfiable; runs that hit the step cap are counted, not judged.",
    technique="deterministic simulation with fault injection: seeded RNG + forced rejections, restraint predicates on final state"),
+ "C11": dict(level="exploration", design="§4 C11, §3 world C", quick_t=600, thorough_t=3600,
+   text="Call histories of gen_params (generated .ff force fields and shipped libraries, with failing calls, re-used output paths, other cwd, bin/polyply main) run in pristine child interpreters under several hash seeds; after each successful call the file is read back with polyply's own topology reader and compared with the molecule intercepted at the writer.",
+   note="Trusted: vermouth writer as the 'built molecule' observation point, numpy/networkx. Listing direction of bonded interactions and the impropers/dihedrals section split are treated as immaterial.",
+   technique="deterministic simulation: seeded call histories in forked pristine interpreters, write/read round trip vs captured object"),
+ "C13": dict(level="exploration", design="§4 C13, §3 world C", quick_t=900, thorough_t=3600,
+   text="Each job is executed as a family: under 4 hash seeds, twice in a row, with permuted -f/definition order, as a library under permuted os.listdir, with relabelled/shuffled residue graph, and after histories of other (also failing) calls; atom tables and interaction multisets of all members must agree.",
+   note="Definitions are non-conflicting by construction; order of interaction lines is not compared.",
+   technique="deterministic simulation: environment (hash seed, listdir, file order) and call history as simulated dimensions, differential oracle"),
+ "C20": dict(level="fault_enumeration", design="§4 C20, §3 world C", quick_t=900, thorough_t=7200,
+   text="A crash (BaseException) is injected at every call boundary into polyply/vermouth code before the publishing step for gen_params and gen_seq jobs (N ~ 150-2500) and at every distinct function plus a seeded sample for gen_coords; snapshots of the output directory at the crash instant, after the failed call and after later operations in the same process must show the output path untouched; successful runs are checked for completeness and GROMACS-style backups.",
+   note="An exception at a call boundary stands for any failure at that stage; failures inside the final rename are out of scope of the property. sys.settrace only sees Python-level calls.",
+   technique="deterministic simulation with enumerated crash points (sys.settrace), followed by further operations in the same process"),
  "C15": dict(level="exploration", design="§4 C15, §3 world A", quick_t=600, thorough_t=3600,
    text="Template generation under seeded RNG and forced optimiser failures (retry loop and fall-through); oracle on the captured topology (grouping, key sets, centring, virtual sites, tolerances, user templates/volumes, positive sizes).",
    note="Trusted as for C03. Only virtual_sitesn(1), virtual_sites2, virtual_sites3(1) are generated; atom names unique per residue.",
